@@ -32,7 +32,9 @@ ASSUMPTIONS = [
     "types are compared by SQLite affinity (datatype3.html rules applied to the rendered type) in oracle 1 and by repr in the fixed point",
     "expression indexes are documented as not reflected (warning) and are expected to be skipped",
     "UNIQUE constraints are generated on distinct column tuples different from the PK (SQLite shares the automatic index otherwise)",
-    "known findings excluded by construction: '$' in unquoted table/UNIQUE/FK identifiers; expression defaults that start with a quote",
+    "identifiers containing a double quote, newline or parenthesis are never generated (known finding registered under C06: SQLite constraint names are recovered by regex over the CREATE TABLE text)",
+    "known findings excluded by construction and pinned in findings/C15: '$' in unquoted table/UNIQUE/FK/constraint identifiers; '.' in names referred to by a FK (fixed point); expression defaults that start with a quote (fixed point); string defaults containing 'CHECK ('; MySQL parser: expression default with nested parentheses, names containing a back-quote",
+    "mysql_parser: the SHOW CREATE TABLE text is this check's rendition of the server's documented layout (two-space indent, back-quoted names, lower-case type keyword, 'decimal(10,2)'); USING is parsed but not consumed by the dialect and is not compared",
 ]
 
 WORDS = ["alpha", "beta", "gamma", "delta", "eps", "zeta", "eta", "theta", "iota", "kappa"]
@@ -329,7 +331,9 @@ def expected(tabs, tables, pinned=False):
             rendered = dia.type_compiler_instance.process(t.c[c["name"]].type)
             pkpos = d["pk"].index(ci) + 1 if ci in d["pk"] else 0
             e["cols"].append((c["name"], affinity(rendered), bool(c["nullable"] and ci not in d["pk"]), strip_parens(dtext), pkpos))
-        named_pk = d["pkname"] if not (d["autoinc"]) else None  # AUTOINCREMENT renders the PK inline, where no constraint name is emitted
+        # sqlite_autoincrement renders "PRIMARY KEY AUTOINCREMENT" inline (no constraint name) unless the column also carries a FK
+        inline_pk = d["autoinc"] and not any(d["pk"][0] in f["cols"] for f in d["fks"])
+        named_pk = d["pkname"] if not inline_pk else None
         e["pk"] = ([d["cols"][x]["name"] for x in d["pk"]], named_pk if d["pk"] else None)
         fks = []
         for f in d["fks"]:
